@@ -369,6 +369,21 @@ fn reader(sh: &Shared, seed: u64, id: u64) -> Result<(), Violation> {
             std::thread::yield_now();
             continue;
         }
+        // C18 under concurrency: the reported high-water mark never lies below an acknowledged write
+        if rng.chance(1, 3) {
+            let acked = sh.published.load(Ordering::Acquire);
+            if acked > 0 {
+                let h = sh.tree.get_highest_seqno();
+                sh.count("highest_seqno_checks", 1);
+                if h.is_none_or(|h| h < acked - 1) {
+                    return Err(Violation::new(
+                        &["C18"],
+                        "highest-seqno-below-acknowledged-write",
+                        format!("get_highest_seqno() = {h:?} although the write with seqno {} had already returned", acked - 1),
+                    ));
+                }
+            }
+        }
         let hold = rng.range(1, 12);
         let iview = if sh.ingest.load(Ordering::Relaxed) { Some(ingest_view(sh, s)?) } else { None };
         for _ in 0..hold {
